@@ -22,7 +22,7 @@ def _do_crypt(name, defs, extra=None):
          "replace_calls": ["check_badsalt_chars:check_badsalt_chars_stub", "get_hashfn:get_hashfn_stub"],
          "restub": {"remove": ["get_internal"], "src": ["contracts/get_internal_stub.c"]},
          "allow_no_body": ["gensalt_", "get_random_bytes", "make_failure_token"],
-         "unwind": 20, "bounds": {"SPAN": 512, "STR": 32},
+         "unwind": 20, "bounds": {"SPAN": 64, "STR": 32},
          "mem_gb": 3, "timeout": 400}
     j.update(extra or {})
     return j
@@ -30,4 +30,25 @@ def _do_crypt(name, defs, extra=None):
 JOBS = [
     _do_crypt("do_crypt", []),
     _do_crypt("do_crypt_good_setting", ["GOOD_SETTING=1"], {"props": ["C10", "C18", "C05"]}),
+]
+
+
+def _unit(name, define, props, functions, extra=None):
+    j = {"name": name, "props": props, "functions": functions,
+         "harness": "harness/crypt_units.c", "defs": [define + "=1"],
+         "verif_src": ["models/strings.c"],
+         "allow_no_body": ["gensalt_", "crypt_", "get_random_bytes", "make_failure_token"],
+         "unwind": 20, "bounds": {"SPAN": 64, "STR": 32}, "mem_gb": 2, "timeout": 300}
+    j.update(extra or {})
+    return j
+
+JOBS += [
+    _unit("check_badsalt_chars", "U_badsalt", ["C05", "C10", "C18"], ["check_badsalt_chars"], {"loops": [BADSALT_LOOP]}),
+    _unit("get_hashfn", "U_hashfn", ["C05", "C07", "C18", "C19"], ["get_hashfn", "is_des_salt_char"]),
+    _unit("hash_table", "U_table", ["C10", "C12", "C18", "C19"], ["hash_algorithms (table)"]),
+    _unit("get_internal", "U_get_internal", ["C04", "C07"], ["get_internal"],
+          {"cases": [("r%d" % k, None, ["DATA_OFF=%d" % (16 + k)]) for k in range(16)],
+           "assumptions": ["A-align: malloc'd and static objects start at multiples of 16; the 16 residues of the data object's placement are enumerated"]}),
+    _unit("make_failure_token", "U_failure_token", ["C04", "C05", "C13"], ["make_failure_token"],
+          {"repo_src": ["lib/util-make-failure-token.c"], "allow_no_body": ["gensalt_", "crypt_", "get_random_bytes"]}),
 ]
